@@ -50,6 +50,8 @@ def _bdecode(data: bytes, start_index: int = 0) -> typing.Tuple[typing.Union[int
             length = int(data[start_index:split_pos])
         except (ValueError, TypeError) as err:
             raise DecodeError(err)
+        if length < 0:
+            raise DecodeError(f"negative string length: {length}")
         start_index = split_pos + 1
         end_pos = start_index + length
         return data[start_index:end_pos], end_pos
